@@ -43,7 +43,11 @@ def run_shard(shard, tier, seed, wd, res):
         if g == 2:
             for a in (1, 2, Q - 1, (Q - 1) // 2, rng.randrange(Q)):
                 vals += [(a, 0), (0, a), (a, a), (a, Q - a)]
+            # first coefficient at limb boundaries (value and Montgomery domain), second coefficient odd / even
+            for c0 in G.field_boundary(Q, 381):
+                vals += [(c0, 1), (c0, 2), (1, c0)]
         else:
+            vals += G.field_boundary(Q, 381)
             vals += [(Q - 1) // 2, (Q + 1) // 2, (1 << 384) % Q]
         for v in vals:
             s.op(gp + ".osswu", T(f.norm(v)))
